@@ -88,12 +88,17 @@ pub struct Arena {
     buf: Vec<u8>,
 }
 impl Arena {
+    /// the arena places a stream `r` bytes after an address that is a multiple of 3 * 32768 (so residue 0 is aligned for
+    /// every alignment unit up to 32768 and for the unit 3 of the recorded finding KF-C07-1, whatever the address of the
+    /// buffer is in this run, and residue r is r modulo 128 and modulo 3): the model's base is then exactly `r`
+    pub const ALIGN: usize = 3 * 32768;
     pub fn new(len: usize) -> Self {
-        Arena { buf: vec![0xAA; len + 512] }
+        Arena { buf: vec![0xAA; len + 2 * Self::ALIGN + 512] }
     }
     pub fn place(&mut self, bytes: &[u8], r: usize) -> &[u8] {
         let p = self.buf.as_ptr() as usize;
-        let start = (128 - p % 128) % 128 + 128 + (r % 128);
+        let a = Self::ALIGN;
+        let start = (a - p % a) % a + a + (r % 128);
         self.buf[start..start + bytes.len()].copy_from_slice(bytes);
         &self.buf[start..start + bytes.len()]
     }
